@@ -183,6 +183,7 @@ EnCaseFlip(t, c, q) ==
        \/ (x.k = "reg" /\ x.s # 1)
        \/ (x.k = "num" /\ x.s >= 2)
        \/ (x.k = "loc" /\ x.a = 1)                                                   \* E2: never "str"
+       \/ (x.k = "op" /\ x.v = 19)                                                   \* the one operator spelled with a letter: ^c / ^C
 
 EnRegAlias(t, c, q) ==
     /\ c.w[q].k = "reg" /\ ~Opq(t, c, q)                                             \* E1
